@@ -123,6 +123,12 @@ instance {β : Type} [Parse β] : Parse (List Nat → β) := ⟨fun s =>
     | some e => parse e.2
     | none => parse ""⟩
 
+/-- a function parameter whose argument is a number (`os.urandom(n)`): the same table, the argument
+    being the single decimal `n` -/
+instance {β : Type} [Parse β] : Parse (Nat → β) := ⟨fun s =>
+  let f : List Nat → β := parse s
+  fun n => f [n]⟩
+
 instance : Render Nat := ⟨toString⟩
 instance : Render Int := ⟨toString⟩
 instance : Render Bool := ⟨fun b => if b then "True" else "False"⟩
